@@ -7,4 +7,5 @@ git -C /repo apply $d/patch.diff || { echo "patch does not apply"; exit 2; }
 cd /verif && ./check $id --skip-lean 2>&1 | tail -4
 rc=$?
 git -C /repo checkout -- .
+git -C /verif checkout -- lean/Momtrop/Generated/SerdeSchema.lean 2>/dev/null   # regenerated from the mutated source during the run
 git -C /repo status --short
